@@ -161,6 +161,10 @@ func (in *histIn) reference() *reference {
 			if a == nil || b == nil {
 				return nil
 			}
+			if i == j {
+				// the history asks an object about itself: so does the reference
+				b = a
+			}
 			r.asg[i][j] = gAsg(a, b)
 		}
 		for k := 0; k < m; k++ {
@@ -188,6 +192,9 @@ func (in *histIn) run() (got, want bool, ok bool) {
 	}
 	if in.QV < 0 {
 		a, b := in.freshType(in.QA), in.freshType(in.QB)
+		if in.QA == in.QB {
+			b = a
+		}
 		return gAsg(w.T[in.QA], w.T[in.QB]), gAsg(a, b), true
 	}
 	a, v := in.freshType(in.QA), in.freshValue(in.QV)
